@@ -16,7 +16,8 @@ LEVEL_TEXT = ('Generated differentiable module programs (tanh only: params, Dens
               ' modules, modules that draw random numbers (all transforms and custom_vjp under jit), float collections'
               ' written by the forward pass while differentiated.'
               ' Round e/f: jvp_forms (list primals, restricted variables filter), attr_modules (vjp multi_scope / value_and_grad over modules with attribute modules).'
-              ' Round g: plain_lifted_plain (plain, lifted, plain calls on one module instance with nested mutable state), nn.vjp with restricted variables filters (K14).')
+              ' Round g: plain_lifted_plain (plain, lifted, plain calls on one module instance with nested mutable state), nn.vjp with restricted variables filters (K14).'
+              ' Round h: collection_names (differentiated collections whose names contain one another; string / list / tuple filters).')
 LEVEL_NOTE = 'JAX autodiff of module.apply is the trusted reference; float32 same-program tolerance.'
 TECHNIQUE = 'runtime monitoring: relational oracle against jax.vjp/jvp/grad of the functionalised module program'
 RULE = ('case = (transform, inner program, differentiated collections, has_aux, number/pytree shape of primals, cotangent seed). distinct = '
